@@ -29,7 +29,7 @@ pub struct Case {
     pub muts: Vec<Mutation>,
 }
 
-pub const KINDS: [&str; 16] = [
+pub const KINDS: [&str; 17] = [
     "delete-element",
     "duplicate-element",
     "swap-elements",
@@ -46,6 +46,7 @@ pub const KINDS: [&str; 16] = [
     "duplicate-attribute-value-across", // two components get the same name
     "unwrap-element",       // replace an element by its children
     "import-retarget",      // schemaLocation pointed at itself / another / missing file
+    "unicode-value",        // multi-byte characters put into any attribute value (names, URIs, facets)
 ];
 
 struct Elem {
@@ -258,6 +259,23 @@ pub fn mutate(text: &str, others: &[&str], m: &Mutation) -> Option<String> {
                 Some(replace(&a.2, &text[b.2.clone()]))
             }
         }
+        "unicode-value" => {
+            let all: Vec<&(String, Range<usize>, Range<usize>)> = els.iter().flat_map(|e| e.attrs.iter()).collect();
+            let a = pick(&all, m.a)?;
+            let v = &text[a.2.clone()];
+            let uni = ["ü", "é", "€", "日", "😀", "ß", "ａ"];
+            let u = uni[idx(m.b, uni.len())];
+            // insert after the last '/' or ':' (+ 0..3 bytes), or replace the whole value
+            let chars: Vec<char> = v.chars().collect();
+            let anchor = chars.iter().rposition(|c| *c == '/' || *c == ':').map(|p| p + 1).unwrap_or(0);
+            let at = (anchor + (m.c as usize % 4)).min(chars.len());
+            let new: String = match m.c % 5 {
+                0 => format!("{u}{u}"),
+                1 => format!("{}{u}{u}", chars[..anchor].iter().collect::<String>()),
+                _ => format!("{}{u}{}", chars[..at].iter().collect::<String>(), chars[at..].iter().collect::<String>()),
+            };
+            Some(replace(&a.2, &new))
+        }
         "import-retarget" => {
             let locs: Vec<&(String, Range<usize>, Range<usize>)> =
                 els.iter().flat_map(|e| e.attrs.iter()).filter(|a| a.0 == "schemaLocation" || a.0 == "namespace" || a.0 == "targetNamespace" || a.0 == "location" || a.0 == "soapAction").collect();
@@ -361,6 +379,25 @@ fn edge_probes() -> Vec<(String, FileSet)> {
         }
         t += &format!("<xs:complexType name=\"T{n}\"><xs:sequence/></xs:complexType></xs:schema>");
         v.push(("edge/40-forward-extension-with-typed-members".to_string(), FileSet::single("fwd2.xsd", &t)));
+    }
+    // layered shared imports: both files of layer i import both files of layer i+1
+    {
+        let layers = 30;
+        let mut files = vec![];
+        let name = |l: usize, k: usize| format!("l{l}k{k}.xsd");
+        for l in 0..layers {
+            for k in 0..2 {
+                let mut t = format!("<xs:schema xmlns:xs=\"http://www.w3.org/2001/XMLSchema\" targetNamespace=\"http://example.org/layer/n{l}x{k}\">");
+                if l + 1 < layers {
+                    for k2 in 0..2 {
+                        t += &format!("<xs:import namespace=\"http://example.org/layer/n{}x{k2}\" schemaLocation=\"{}\"/>", l + 1, name(l + 1, k2));
+                    }
+                }
+                t += &format!("<xs:complexType name=\"L{l}K{k}\"><xs:sequence><xs:element name=\"v\" type=\"xs:string\"/></xs:sequence></xs:complexType></xs:schema>");
+                files.push((name(l, k), t));
+            }
+        }
+        v.push(("edge/30-layers-of-shared-imports".to_string(), FileSet { start: name(0, 0), files }));
     }
     // very deep element nesting (any root)
     for n in [20_000usize, 200_000] {
